@@ -80,6 +80,8 @@ int main(int argc, char** argv) {
     /* a formatted write whose format has literal text, two conversions and a %% between them */
     /* the target itself as the %s argument of a formatted write into it */
     else if (hc_is(0, "printself")) { long long pos = hc_int(2); volatile long long r = 0; HC_TRY(r = print_to(s, (int)pos, "%s", s)); emit("printself", o, 0, pos, "", hc_exc, r); }
+    /* a NULL object shown in the middle of a formatted write: the text <NULL>, and the write goes on behind it */
+    else if (hc_is(0, "printnull")) { long long pos = hc_int(2); char* a = arg(3); volatile long long r = 0; HC_TRY(r = print_to(s, (int)pos, "%s%$|%s", $S(a), NULL, $S(a))); emit("printnull", o, 0, pos, a, hc_exc, r); }
     else if (hc_is(0, "printpct")) { long long pos = hc_int(2); char* a = arg(3); volatile long long r = 0; HC_TRY(r = print_to(s, (int)pos, "%s%%%s|", $S(a), $S(a))); emit("printpct", o, 0, pos, a, hc_exc, r); }
     else if (hc_is(0, "assigno")) { int p = (int)hc_int(2); HC_TRY(assign(s, objs_[p])); emit("assigno", o, p, 0, "", hc_exc, 0); }
     else if (hc_is(0, "concato")) { int p = (int)hc_int(2); HC_TRY(concat(s, objs_[p])); emit("concato", o, p, 0, "", hc_exc, 0); }
